@@ -1213,7 +1213,8 @@ Theorem json_every_status : forall sch t,
     json_valid s = true.
 Proof.
   intros sch t He Hj ts minimum allowed now g Hb Hg nm cl gr id ex Hcl Hgr Hid Hex Hn out s Hout Hi.
-  eapply json_every_status_partial; eauto. eapply group_safe_of; eauto.
+  exact (json_every_status_partial sch t He Hj ts minimum allowed now g Hg nm cl gr id ex Hcl Hgr Hid Hex
+           (group_safe_of nm ts minimum allowed now g Hb Hg Hn) out s Hout Hi).
 Qed.
 
 (* ---- the regenerated tables ------------------------------------------------------------------- *)
